@@ -130,12 +130,29 @@ Theorem call_protocol_all_trees :
 Proof. exact protocol_all_trees. Qed.
 Print Assumptions call_protocol_all_trees.
 
+(* T1  the same for trees with a FIELD range (functionals: InnerProduct / L2NormSquared-like
+   leaves under Sum, PointwiseProduct, Left/RightScalarMult, f o A, f * v, any depth):
+   op(x) returns the scalar g(x) and modifies nothing; op(x, out=anything) is rejected
+   -- TypeError when out is a number, OpRangeError otherwise -- with the store untouched. *)
+Theorem functional_protocol_all_trees :
+  forall (junk : nat -> nat -> option R) (ro : ro_t) (o : @op (option R)) (dom : space) (g : list R -> R),
+  dens ro o dom g ->
+  forall (s : @store (option R)) (x : nat) (dx : list R),
+    wf_store s -> good ro s -> rd s x = Some (dom, cl dx) ->
+    (exists s1, call junk o (VElem x) None s = Ok (VSc (Some (g dx))) s1 /\
+       forall i, (i < length s)%nat -> rd s1 i = rd s i) /\
+    (forall y, in_rsp RField y s = true -> call junk o (VElem x) (Some y) s = Err EFunctionalOut s) /\
+    (forall y, in_rsp RField y s = false -> call junk o (VElem x) (Some y) s = Err ERange s).
+Proof. exact protocol_all_functionals. Qed.
+Print Assumptions functional_protocol_all_trees.
+
 (* T1  contract preservation, the induction behind it: every well-formed tree meets
    the public contract (both modes) with its denotation. *)
 Theorem contract_preservation :
-  forall (junk : nat -> nat -> option R) (ro : ro_t) (o : @op (option R)) (dom ran : space) (F : list R -> list R),
-  den ro o dom ran F -> o_dom (sem junk o) = dom /\ vec_ok (sem junk o) ran ro F.
-Proof. exact den_ok. Qed.
+  forall (junk : nat -> nat -> option R) (ro : ro_t),
+  (forall o dom ran F, den ro o dom ran F -> o_dom (sem junk o) = dom /\ vec_ok (sem junk o) ran ro F) /\
+  (forall o dom g, dens ro o dom g -> o_dom (sem junk o) = dom /\ sc_ok (sem junk o) ro g).
+Proof. exact den_dens_ok. Qed.
 Print Assumptions contract_preservation.
 
 (* non-vacuity: the primitive kernels used as leaves are clean maps, and a concrete
@@ -163,6 +180,19 @@ Proof.
     + apply D_Leaf. apply (pmat_clean (2, 0)%nat (2, 0)%nat [[1%R; 0%R]; [1%R; 1%R]]). reflexivity.
     + apply D_Leaf. apply pabs_clean.
   - apply D_Multiply. left. reflexivity.
+Qed.
+Example a_functional_tree_with_a_denotation :
+  let sp := (2, 0)%nat in
+  let inner := Lf {| lf_kind := KOop; lf_fun := PInner (cl [1%R; 3%R]); lf_alias := false; lf_quirk := QNone |} sp RField in
+  let sumsq := Lf {| lf_kind := KOop; lf_fun := PSumSq; lf_alias := false; lf_quirk := QNone |} sp RField in
+  exists g, dens [] (Op cls_OperatorSum sp RField [] [] [None; None]
+                       [Op cls_OperatorLeftScalarMult sp RField [Some 2%R] [] [] [inner];
+                        Op cls_OperatorComp sp RField [] [] [None]
+                           [sumsq; Op cls_ScalingOperator sp (RSp sp) [Some 3%R] [] [] []]]) sp g.
+Proof.
+  cbv zeta. eexists. apply DS_Sum.
+  - apply DS_LScal. apply DS_Leaf; [discriminate | apply pinner_clean].
+  - eapply DS_Comp; [apply DS_Leaf; [discriminate | apply psumsq_clean] | apply D_Scaling].
 Qed.
 
 (* ------------------------------------------------------------------ *)
